@@ -111,6 +111,7 @@ def check(R, F, P, cfg):
         expect[WCM + "decrement_counter"] = ("weak_counter", 32767)
     mark_vals = marks
     seen = 0
+    covered = set()
     for f in F.fns.values():
         if not f.npath.startswith((CM, WCM)) or f.kind == "closure":
             continue
@@ -125,6 +126,7 @@ def check(R, F, P, cfg):
             continue
         for x in sets:
             seen += 1
+            covered.add(f.npath)
             a = S.args_of(x)
             cellname = fmt(strip(a[0])).split(".")[-1]
             want = expect.get(f.npath)
@@ -134,7 +136,10 @@ def check(R, F, P, cfg):
             fp = footprint(a[1], cellname, mark_vals, S, x)
             ok = fp is not None and (fp & ~want[1] & M16) == 0 and cellname == want[0]
             R.inst("R16.3", "footprint:%s" % short(f.npath), ok, "store %s into self.%s may change bits %s; allowed field: %s bits %s" % (fmt(a[1])[:90], cellname, "?" if fp is None else hex(fp), want[0], hex(want[1])), where=x.where(), cfg=cfg)
-    R.floor("R16.3", cfg, 6 + (2 if fin else 0) + (8 if weak else 0), seen)
+    # coverage is counted per storing function (one store site or several is a matter of style): every function of the table that exists stores
+    missing = sorted(short(n) for n in expect if F.fn(n) is not None and n not in covered)
+    R.inst("R16.3", "footprint-coverage", not missing, "functions of the footprint table without an analysed store: %s" % (missing or "none"), cfg=cfg, nontrivial=False)
+    R.floor("R16.3", cfg, 6 + (1 if fin else 0) + (4 if weak else 0), len(covered))
     # no store to these cells outside the modules
     outside = []
     for (f, bb, ci) in P.call_sites(lambda c_: c_["npath"].startswith(("std::cell::Cell::<T>::set", "std::cell::Cell::<T>::replace"))):
@@ -229,6 +234,18 @@ def footprint(val, cell, mark_vals, S, node):
         e = strip(e)
         if is_load(e):
             return 0
+        if isinstance(e, tuple) and e and e[0] == "phi":
+            # `cell.set(if c { a } else { b })`: every merged definition must stay inside the field
+            vs = S.phi_values(e)
+            if not vs or any(_mentions_phi(v, e) for v in vs):
+                return None
+            r = 0
+            for v in vs:
+                f_ = fp(v)
+                if f_ is None:
+                    return None
+                r |= f_
+            return r
         if isinstance(e, tuple) and e and e[0] == "field" and e[2] == "0":
             return fp(e[1])    # (x op y).0 of a checked arithmetic pair
         if isinstance(e, tuple) and e and e[0] == "bin":
@@ -260,6 +277,14 @@ def footprint(val, cell, mark_vals, S, node):
                 return mask
         return None
     return fp(val)
+
+
+def _mentions_phi(v, phi):
+    if isinstance(v, tuple):
+        if v == phi:
+            return True
+        return any(_mentions_phi(x, phi) for x in v)
+    return False
 
 
 def _const(e):
